@@ -178,5 +178,5 @@ def run_cli_plan(runner, proc, spec, st):
         exc = None
         if res.exception is not None and not isinstance(res.exception, SystemExit):
             exc = "%s: %s" % (type(res.exception).__name__, str(res.exception)[:160])
-        k.log("cli-return", op=op, code=res.exit_code, exc=exc, out=[l for l in (res.output or "").splitlines() if l.strip()][-12:],
+        k.log("cli-return", op=op, code=res.exit_code, exc=exc, _out=[l for l in (res.output or "").splitlines() if l.strip()][-12:],
               snap=ws_snapshot(w))
